@@ -97,6 +97,8 @@ type fragSpec struct {
 	// define are parameters of the fragment, standing for the values they have after the statement
 	Field     string // instead of First/Last: the fragment is the EXPRESSION that initialises the field with this
 	FieldType string // name in the one composite literal of the function that sets it; its Go type is FieldType
+	Has       string // the WHOLE text of the First statement (all its lines, blanks squeezed) must contain this: tells apart
+	// statements with the same first line (two `for j := 0; ..` loops of one block); still exactly one match required
 }
 
 var specs = []spec{
@@ -198,6 +200,15 @@ var specs = []spec{
 		Params: []string{"pq *productQuantizer", "dists []float32", "pointY *productQuantizedPoint"}, Locals: []string{"dist float32"}, Results: []string{"dist"}}),
 	pqSpec("DistanceFromPoint", "pq_lookupFromPoint", &fragSpec{First: "var dist float32", Last: "for i := 0; i < pq.params.NumSubVectors; i++ {",
 		Params: []string{"pq *productQuantizer", "pointX *productQuantizedPoint", "pointY *productQuantizedPoint"}, Locals: []string{"dist float32"}, Results: []string{"dist"}}),
+	// Fit(): what each per-sub-vector goroutine does with the k-means result (the statements live inside the `go func(i int) {..}(i)`
+	// literal; k-means itself, the goroutine fan-out and the wait group are not translated): the copy of the centroids into
+	// flatCentroids and the fill of the centroid-to-centroid distance table
+	pqFit("pq_fitFlatCentroids", &fragSpec{First: "for j := 0; j < pq.params.NumCentroids; j++ {", Has: "copy(pq.flatCentroids[", Last: "for j := 0; j < pq.params.NumCentroids; j++ {",
+		Params: []string{"pq *productQuantizer", "i int", "kmeans utils.KMeans"}, Results: []string{"pq"}}),
+	pqFit("pq_fitCentroidDists", &fragSpec{First: "for j := 0; j < pq.params.NumCentroids; j++ {", Has: "pq.centroidDists[", Last: "for j := 0; j < pq.params.NumCentroids; j++ {",
+		Params: []string{"pq *productQuantizer", "i int", "kmeans utils.KMeans"}, Results: []string{"pq"}}),
+	// the product quantiser's encode: nearest centroid per sub-vector; float32 is an abstract ordered type (comparisons only)
+	pqEnc("flatCentroidSlice", nil), pqEnc("encode", []string{"maxFloat32"}),
 	// the binary quantiser: which of bit distance / float distance its two distance closures use
 	bqSpec("DistanceFromFloat"), bqSpec("DistanceFromPoint"),
 }
@@ -220,6 +231,18 @@ func pqSpec(fn, name string, fr *fragSpec) spec {
 			{File: "shard/vectorstore/product.go", Name: "productQuantizer", Only: []string{"params", "distFn", "subVectorLen", "centroidDists", "flatCentroids"}},
 			{File: "shard/vectorstore/product.go", Name: "productQuantizedPoint", Only: []string{"Vector", "CentroidIds"}}},
 		Frag: fr}
+}
+
+func pqEnc(fn string, prims []string) spec {
+	return spec{File: "shard/vectorstore/product.go", Func: fn, Recv: "productQuantizer", Module: "PQEncode", Ext: true, FloatAbs: "D", Prims: prims,
+		Structs: []structSpec{{File: "models/quantizer.go", Name: "ProductQuantizerParameters"}, {File: "distance/distance.go", Name: "FloatDistFunc"},
+			{File: "shard/vectorstore/product.go", Name: "productQuantizer", Only: []string{"params", "distFn", "subVectorLen", "flatCentroids"}}}}
+}
+
+func pqFit(name string, fr *fragSpec) spec {
+	sp := pqSpec("Fit", name, fr)
+	sp.Structs = append(sp.Structs, structSpec{File: "utils/kmeans.go", Name: "KMeans", Only: []string{"Centroids"}})
+	return sp
 }
 
 // the float metrics of distance.go; the dot product implementation (a package variable: AVX kernel or pure Go loop) is abstract
